@@ -72,6 +72,12 @@ ASSUMPTIONS = [
     "(gradient, curvature, matrix after a precision update); the Metropolis-Hastings ratio itself is C15's; "
     "skygrid is exercised unbatched there (batched skygrid statistics are covered by suffstats)",
     "sampling dates are given as ages (min 0); calendar dates are C02/C06's subject",
+    "gmrf: every case is evaluated three times on the same object (fresh; after a notification that forces the "
+    "density to be recomputed at the same values; after a field assignment) with the relations asserted each time, "
+    "and the weights Parameter of a weighted GMRF must stay bit-identical to what was given after every read "
+    "(kind input_modified:weights; weights are given in the dtype of the field)",
+    "an exception raised by torch.autograd on a graph that torchtree built (block_update / coalescent_history take "
+    "the derivative of the reported densities) is a failure of the case (kind backward_raises:*), not a harness error",
     "time unit of the trees 2**-30..2**20: the oracle is evaluated at the same unit from the same doubles; interval "
     "lengths are the same floating-point subtractions on both sides and every compared quantity is a sum of terms of "
     "one sign (or is compared with its conditioning term), so the 1e-9 relative tolerance is unit-free; the "
@@ -222,6 +228,31 @@ def gmrf_res(c, cls, ws):
     return res
 
 
+def check_inputs_untouched(res, dic, c, where):
+    """the parameters handed to the models still hold, bit for bit, the values that were given
+    (weights of a weighted GMRF: a model that normalises / inverts its inputs in place changes what
+    every later evaluation and every other consumer of the same Parameter sees)"""
+    if c.get("variant") == "weighted" and "weights" in dic:
+        now = arr(dic["weights"].tensor)
+        given = np.asarray(c["weights"], dtype=float)
+        if now.shape != given.shape or not np.array_equal(now, given):
+            res.fail("input_modified:weights", {"after": where, "given": given[:6].tolist(), "now": now.reshape(-1)[:6].tolist()})
+            return False
+    return True
+
+
+def grad_or_fail(res, value, wrt, what):
+    """autograd of a density torchtree reported, w.r.t. a parameter tensor. The graph was built by
+    torchtree: if backward cannot run through it (e.g. an input was modified in place after the
+    forward pass) that is a failure of the case, not of the harness."""
+    try:
+        (g,) = torch.autograd.grad(value.sum(), wrt, retain_graph=True)
+        return g
+    except RuntimeError as e:
+        res.fail("backward_raises:%s" % what, {"message": str(e)[:300]})
+        return None
+
+
 # =========================================================================== gmrf
 def body_gmrf(c):
     n, B = c["n"], c["B"]
@@ -231,7 +262,22 @@ def body_gmrf(c):
         check_tree(model.tree_model, c["g"])
     ws = [gmrf_row_weights(c, r) for r in range(rows)]
     res = gmrf_res(c, "GMRF", ws)
-    return rel_gmrf(res, model, c, ws)
+    rel_gmrf(res, model, c, ws)
+    check_inputs_untouched(res, dic, c, "first evaluation and precision_matrix()")
+    # second evaluation of the same object at the same values (the listeners are notified, so
+    # the density is recomputed), then at a new field: the relations hold every time
+    k0 = len(res.fails)
+    dic["field"].fire_parameter_changed()
+    rel_gmrf(res, model, c, ws, observe=("matrix", "density"))
+    check_inputs_untouched(res, dic, c, "second evaluation")
+    annotate(res, k0, 1, [{"what": "field", "how": "notify"}])
+    k0 = len(res.fails)
+    c2 = dict(c, x=[[0.5 * v + 0.25 * (i % 3) for i, v in enumerate(row)] for row in c["x"]])
+    dic["field"].tensor = tt.T(c2["x"] if B is not None else c2["x"][0])
+    rel_gmrf(res, model, c2, ws)
+    check_inputs_untouched(res, dic, c, "evaluation after a field update")
+    annotate(res, k0, 2, [{"what": "field", "how": "assign"}])
+    return res
 
 
 def rel_gmrf(res, model, c, ws, observe=("density", "matrix"), oracle_ok=True):
@@ -316,7 +362,9 @@ def body_gmrf_integrated(c):
         check_tree(model.tree_model, c["g"])
     ws = [gmrf_row_weights(c, r) for r in range(rows)]
     res = gmrf_res(c, "GMRFGammaIntegrated", ws)
-    return rel_gmrf_integrated(res, model, c, ws)
+    rel_gmrf_integrated(res, model, c, ws)
+    check_inputs_untouched(res, dic, c, "evaluation")
+    return res
 
 
 def rel_gmrf_integrated(res, model, c, ws):
@@ -627,7 +675,9 @@ def body_block(c):
     unit = bool(all(np.all(w == 1.0) for w in ws))
     res.tags.update({"gmrf": "GMRF", "variant": c["variant"], "unit_weights": unit, "bucket": "%s+GMRF/%s" % (c["kind"], c["variant"])})
     res.labels = res.labels + ("gmrf:" + c["variant"],)
-    return rel_block(res, op, dic, c, ws)
+    rel_block(res, op, dic, c, ws)
+    check_inputs_untouched(res, dic, c, "the operator's reads")
+    return res
 
 
 def rel_block(res, op, dic, c, ws, toggle_grad=True, precision_update=True):
@@ -660,13 +710,13 @@ def rel_block(res, op, dic, c, ws, toggle_grad=True, precision_update=True):
     if toggle_grad:
         field.requires_grad = True
     lp_g = gmrf()
-    (grad_g,) = torch.autograd.grad(lp_g.sum(), field.tensor, retain_graph=True)
+    grad_g = grad_or_fail(res, lp_g, field.tensor, "gmrf")
     lp_c = coalescent()
-    (grad_c,) = torch.autograd.grad(lp_c.sum(), field.tensor, retain_graph=True)
+    grad_c = grad_or_fail(res, lp_c, field.tensor, "coalescent")
     if toggle_grad:
         field.requires_grad = False
-    grad_g = arr(grad_g).reshape(rows, m)
-    grad_c = arr(grad_c).reshape(rows, m)
+    grad_g = arr(grad_g).reshape(rows, m) if grad_g is not None else None
+    grad_c = arr(grad_c).reshape(rows, m) if grad_c is not None else None
 
     gam = np.asarray(c["gamma"])
     ssn, ccn = got
@@ -686,7 +736,7 @@ def rel_block(res, op, dic, c, ws, toggle_grad=True, precision_update=True):
         ref = -(Qo @ gam[r])
         condo = np.abs(Qo) @ np.abs(gam[r])
         d = {"row": r, "tau": tau, "operator": gq[:6].tolist(), "weights": ws[r][:6].tolist()}
-        if not vec_close(gq, grad_g[r], cond + condo):
+        if grad_g is not None and not vec_close(gq, grad_g[r], cond + condo):
             res.fail("pubQ_values:gradient_vs_density", dict(d, autograd_of_gmrf=grad_g[r][:6].tolist()))
         if not vec_close(gq, ref, cond + condo):
             res.fail("pubQ_values:gradient_oracle", dict(d, documented=ref[:6].tolist()))
@@ -694,7 +744,7 @@ def rel_block(res, op, dic, c, ws, toggle_grad=True, precision_update=True):
         gs = arr(op.gradient(ccrow, ssrow, grow, torch.zeros(m, m)))
         refs = -cco + sso * np.exp(-gam[r])
         d = {"row": r, "operator": gs[:6].tolist()}
-        if not vec_close(gs, grad_c[r], 0.0):
+        if grad_c is not None and not vec_close(gs, grad_c[r], 0.0):
             res.fail("stats_gradient_vs_density", dict(d, autograd_of_coalescent=grad_c[r][:6].tolist()))
         if not vec_close(gs, refs, 0.0):
             res.fail("stats_gradient_oracle", dict(d, documented=refs[:6].tolist()))
@@ -900,6 +950,7 @@ def body_gmrf_history(c):
             rel_gmrf(res, gmrf, cur, ws, observe=sub, oracle_ok=ok)
         if "integrated" in order and order[0] != "integrated" and ok:
             rel_gmrf_integrated(res, gint, cur, ws)
+        check_inputs_untouched(res, dic, cur, "round %d" % k)
         annotate(res, k0, k, ups)
 
     observe(c["observe0"], 0, [], ok)
@@ -1021,6 +1072,7 @@ def body_coal_history(c):
         if ci is not None and quad:
             rel_coalint(res, ci, {"g": cur["g"], "B": B if c["tree_batched"] else None, "heights_rows": cur["heights_rows"],
                                   "alpha": c["alpha"], "beta": c["beta"]})
+        check_inputs_untouched(res, dic, cur, "round %d" % k)
         annotate(res, k0, k, ups)
 
     observe(0, [], True)
